@@ -157,6 +157,10 @@ def execute(case, stats, log):
             try:
                 m.pool[ev["out"]] = m.pool[var].freeze_chunks()
                 m.origin[ev["out"]] = m.origin.get(var)
+            except Violation:
+                raise
+            except Exception:  # noqa: BLE001 -- metadata that cannot be read (F19 territory) is not this check's matter
+                stats["unclaimed.raised"] = stats.get("unclaimed.raised", 0) + 1
             finally:
                 fakes.set_phase("build")
             check_logs(i, ev, m.pool)
